@@ -115,11 +115,12 @@ Scen(f, a, s, loc, li, st) ==
 \* factor values occurs), shifted by the seed; thorough tier: all of them
 Mod == IF Tier = "thorough" THEN 1 ELSE 37
 Seed == IF "VERIF_SEED" \in DOMAIN IOEnv THEN atoi(IOEnv.VERIF_SEED) ELSE 0
-Selected(f, a, s, loc, li, st) == (f + 2 * a + 3 * s + 5 * loc + 7 * li + 11 * st + (Seed % 37)) % Mod = 0
+Selected(x, sd) == (x[1] + 2 * x[2] + 3 * x[3] + 5 * x[4] + 7 * x[5] + 11 * x[6] + sd) % Mod = 0
 NLoc == K * K + 4
-SetupIdx(f) == 1..Len(Setups(Fams[f]))
-AllIdx == UNION {{<<f, a, s, loc, li, st>> : a \in 1..6, s \in SetupIdx(f), loc \in 1..NLoc, li \in 1..5, st \in 1..3} : f \in 1..3}
-SelectedIdx == {x \in AllIdx : Selected(x[1], x[2], x[3], x[4], x[5], x[6])}
+NSetup == <<4, 5, 5>>
+ASSUME \A f \in 1..3 : NSetup[f] = Len(Setups(Fams[f]))
+AllIdx == {x \in (1..3) \X (1..6) \X (1..5) \X (1..NLoc) \X (1..5) \X (1..3) : x[3] <= NSetup[x[1]]}
+SelectedIdx == LET sd == TLCEval(Seed % 37) IN {x \in AllIdx : Selected(x, sd)}
 PairCovered == \A p \in 1..6, q \in 1..6 : p < q => {<<x[p], x[q]>> : x \in SelectedIdx} = {<<x[p], x[q]>> : x \in AllIdx}
 ScenRec(x) == [scen |-> Scen(x[1], x[2], x[3], x[4], x[5], x[6]), amp |-> Setups(Fams[x[1]])[x[3]].amp,
                size |-> Setups(Fams[x[1]])[x[3]].size, b |-> Setups(Fams[x[1]])[x[3]].b, K |-> K]
